@@ -9,6 +9,7 @@
 let engines : (string * (string list -> string)) list = [
   "charset", E_charset.run;
   "regex", E_regex.run;
+  "literal", E_literal.run;
   "partition", E_partition.run;
   "automata", E_automata.run;
   "looprange", E_looprange.run;
@@ -18,6 +19,7 @@ let engines : (string * (string list -> string)) list = [
 (* engines with an oracle of their own: (cases tokens, impl result) -> None | Some msg *)
 let oracles : (string * (string list -> string -> string -> string option)) list = [
   "regex", E_regex.oracle;
+  "literal", E_literal.oracle;
   "partition", E_partition.oracle;
   "automata", E_automata.oracle;
 ]
